@@ -90,7 +90,7 @@ fn chain(key: &SigningKey, tag: &str, n: usize, log_id: usize) -> Vec<SignedOp> 
     let mut backlink: Option<Hash> = None;
     for seq in 0..n {
         let body = Body::new(format!("{tag}-{seq}").as_bytes());
-        let (header, header_bytes) = create_operation(key, &body, seq as u64, backlink, log_id);
+        let (header, header_bytes) = create_operation(key, &body, seq as u32, backlink, log_id);
         backlink = Some(header.hash());
         out.push(SignedOp {
             header,
@@ -150,7 +150,7 @@ impl World {
         let have = if s.have_nonempty && s.remote_ops > 0 {
             BTreeMap::from([(
                 self.remote_key.verifying_key(),
-                BTreeMap::from([(0usize, (s.remote_ops - 1) as u64)]),
+                BTreeMap::from([(0usize, (s.remote_ops - 1) as u32)]),
             )])
         } else {
             BTreeMap::new()
@@ -693,21 +693,35 @@ async fn run_shape(seed: u64, shape_no: usize, shape: Shape, doubles: usize) -> 
         }
     }
 
+    // sink calls reached under each single stream fault (used to aim the double faults)
+    let mut counts_under: Vec<[usize; 4]> = Vec::new();
     for &sf in &stream_faults {
         let out = run_case(&world, sf, None).await;
+        counts_under.push(out.sink_counts);
         recs.push(judge(seed, shape_no, &world, sf, None, &out));
     }
     for &kf in &sink_faults {
         let out = run_case(&world, StreamFault::Clean, Some(kf)).await;
         recs.push(judge(seed, shape_no, &world, StreamFault::Clean, Some(kf), &out));
     }
-    if !sink_faults.is_empty() {
-        for _ in 0..doubles {
-            let sf = *rng.pick(&stream_faults);
-            let kf = *rng.pick(&sink_faults);
-            let out = run_case(&world, sf, Some(kf)).await;
-            recs.push(judge(seed, shape_no, &world, sf, Some(kf), &out));
+    // Double faults: a stream fault plus a sink failure placed in the later half of the sink
+    // calls that the session makes under that stream fault, so that usually both are reached.
+    for _ in 0..doubles {
+        let i = rng.usize_below(stream_faults.len());
+        let sf = stream_faults[i];
+        let ops = [SinkOp::Ready, SinkOp::StartSend, SinkOp::Flush, SinkOp::Close];
+        let j = rng.usize_below(4);
+        let c = counts_under[i][j];
+        if c == 0 {
+            continue;
         }
+        let kf = SinkFault {
+            op: ops[j],
+            nth: c - rng.usize_below(c.div_ceil(2)),
+            sticky: rng.bool(),
+        };
+        let out = run_case(&world, sf, Some(kf)).await;
+        recs.push(judge(seed, shape_no, &world, sf, Some(kf), &out));
     }
     recs
 }
@@ -788,9 +802,9 @@ pub fn run(args: &Args) {
                 the case is the clean run); distinct = distinct (shape, faults)";
     let mut rep = Report::new(args, rule, 300);
 
-    // quick: the 12 base shapes (~1 500 sessions); thorough: base + random shapes up to the
-    // session budget.
-    let budget = args.n(1_400, 30_000) as usize;
+    // quick: the 12 base shapes + 28 seeded random ones (~4 000 sessions); thorough: base +
+    // random shapes up to the session budget.
+    let budget = args.n(4_000, 30_000) as usize;
     let doubles = match args.tier {
         vh_common::Tier::Quick => 8,
         vh_common::Tier::Thorough => 30,
@@ -800,7 +814,7 @@ pub fn run(args: &Args) {
         let mut rng = Rng::fork(args.seed, 0xC22);
         // seed-dependent extra shapes in both tiers
         let extra = match args.tier {
-            vh_common::Tier::Quick => 2,
+            vh_common::Tier::Quick => 28,
             vh_common::Tier::Thorough => 2_000,
         };
         let mut guard = 0;
